@@ -440,25 +440,45 @@ def _ar(a, b, op):
     return op(a, b)
 
 
+def _dims_equal(da, db):
+    """decide equality of two dims; symbolic ones split the path (a shape either matches or it does not)"""
+    if dim_eq(da, db):
+        return True
+    if isinstance(_dim(da), int) and isinstance(_dim(db), int):
+        return False
+    from .sym import Engine
+
+    if Engine.current is None:
+        raise EngineLimit("cannot decide equality of dims %s and %s outside an exploration" % (da, db))
+    return engine().decide(_dterm(_dim(da)) == _dterm(_dim(db)))
+
+
+def _dim_is_one(d):
+    d = _dim(d)
+    if isinstance(d, int):
+        return d == 1
+    return False  # a symbolic dim broadcasts only when it is equal to the other one
+
+
 def broadcast_shapes(sa, sb):
     n = max(len(sa), len(sb))
     pa, pb = (1,) * (n - len(sa)) + tuple(sa), (1,) * (n - len(sb)) + tuple(sb)
     out, ma, mb = [], [], []
     for da, db in zip(pa, pb):
-        if dim_eq(da, db):
-            out.append(da)
-            ma.append(True)
-            mb.append(True)
-        elif isinstance(da, int) and da == 1:
+        if _dim_is_one(da) and not _dim_is_one(db):
             out.append(db)
             ma.append(False)
             mb.append(True)
-        elif isinstance(db, int) and db == 1:
+        elif _dim_is_one(db) and not _dim_is_one(da):
             out.append(da)
             ma.append(True)
             mb.append(False)
+        elif _dims_equal(da, db):
+            out.append(da)
+            ma.append(True)
+            mb.append(True)
         else:
-            raise EngineLimit("cannot decide broadcasting of dims %s and %s" % (da, db))
+            raise documented(ValueError("operands could not be broadcast together with shapes %s %s" % (tuple(sa), tuple(sb))))
     oa, ob = n - len(sa), n - len(sb)
 
     def ia(idx):
@@ -475,15 +495,15 @@ def matmul(a, b):
     if not (isinstance(a, Tensor) and isinstance(b, Tensor)):
         raise EngineLimit("matmul of non-tensors")
     if a.ndim == 2 and b.ndim == 2:
-        if not dim_eq(a.shape[1], b.shape[0]):
+        if not _dims_equal(a.shape[1], b.shape[0]):
             raise documented(TypeError("matmul shape mismatch %s @ %s" % (a.shape, b.shape)))
         return Tensor((a.shape[0], b.shape[1]), lambda idx: mk_sum(a.shape[1], lambda k: a.fn((idx[0], k)) * b.fn((k, idx[1]))))
     if a.ndim == 2 and b.ndim == 1:
-        if not dim_eq(a.shape[1], b.shape[0]):
+        if not _dims_equal(a.shape[1], b.shape[0]):
             raise documented(TypeError("matmul shape mismatch %s @ %s" % (a.shape, b.shape)))
         return Tensor((a.shape[0],), lambda idx: mk_sum(a.shape[1], lambda k: a.fn((idx[0], k)) * b.fn((k,))))
     if a.ndim == 1 and b.ndim == 2:
-        if not dim_eq(a.shape[0], b.shape[0]):
+        if not _dims_equal(a.shape[0], b.shape[0]):
             raise documented(TypeError("matmul shape mismatch %s @ %s" % (a.shape, b.shape)))
         return Tensor((b.shape[1],), lambda idx: mk_sum(a.shape[0], lambda k: a.fn((k,)) * b.fn((k, idx[0]))))
     if a.ndim == 1 and b.ndim == 1:
@@ -507,9 +527,25 @@ class _AtKey:
         t, key = self.t, self.key
         if isinstance(key, tuple) or t.ndim < 1:
             raise EngineLimit(".at[tuple].set")
+        n = _dterm(t.shape[0])
+        if isinstance(key, slice):
+            if key.step not in (None, 1):
+                raise EngineLimit(".at[stepped slice].set")
+            lo = 0 if key.start is None else key.start
+            hi = n if key.stop is None else key.stop
+            lo = (n + lo) if isinstance(lo, int) and lo < 0 else _lift(lo)
+            hi = (n + hi) if isinstance(hi, int) and hi < 0 else _lift(hi)
+            if not isinstance(v, Tensor):
+                raise EngineLimit(".at[slice].set(scalar)")
+
+            def fn(idx):
+                inside = z3.And(idx[0] >= lo, idx[0] < hi)
+                return z3.If(inside, v.fn((idx[0] - lo,) + tuple(idx[1:])), t.fn(idx))
+
+            return Tensor(t.shape, fn)
         k = _lift(key)
         if isinstance(key, int) and key < 0:
-            k = _dterm(t.shape[0]) + key
+            k = n + key
 
         def fn(idx):
             new = _lift(v) if not isinstance(v, Tensor) else v.fn(idx[1:])
